@@ -18,6 +18,7 @@ META = {
 
 def run(s):
     K.suite_workload(s)
+    K.pair_histories(s)
     if s.tier == 'quick':
         K.item_grid(s, 4, pretties=(False,), kmax=3, full=False)
         K.fuzz(s, 240, K.kind_weights(story=0.15, item=1.0, other=0.15), steps=(5, 25))
